@@ -29,8 +29,12 @@ from fractions import Fraction
 
 import numpy as np
 import thermosteam as tmo
-from engine.api import group
+from thermosteam.exceptions import UndefinedChemicalAlias
+from engine.api import group, CheckAbort
 from engine.sx import tmo_world as W
+from engine.sx.sym import EngineUnsupported, EngineNondeterminism, PathCap, Infeasible
+
+ENGINE_EXC = (EngineUnsupported, EngineNondeterminism, PathCap, Infeasible, CheckAbort)
 
 IX = sys.modules['thermosteam.indexer']
 
@@ -297,6 +301,22 @@ def same(w, got, exp):
     return w.eq(got, exp)
 
 
+def accepted(w, do):
+    """Run a write; an exception is a failed obligation of the contract (a valid key with a value of a valid shape)."""
+    try:
+        do()
+    except ENGINE_EXC:
+        raise
+    except Exception as e:
+        if 'SymReal' in str(e):          # same failure natively reads 'float'
+            e = type(e)(str(e).replace('SymReal', 'float'))
+        w.ensure('the write through a valid key is accepted (no exception)', False, exception=f'{type(e).__name__}: {e}')
+        w.canary('canary: (write rejected)', False)
+        return False
+    w.ensure('the write through a valid key is accepted (no exception)', True)
+    return True
+
+
 def stored_nonzero(w, s):
     return W.rep_ok(w, s)
 
@@ -505,6 +525,8 @@ def lookup(w, spec, s, item, multi):
         exp = spec.read(rows[0][1], key)
     try:
         got = s.imol[key]
+    except ENGINE_EXC:
+        raise
     except Exception as e:
         return False, f'{key!r}: {type(e).__name__}: {e}'
     return same(w, got, exp), None
@@ -830,7 +852,7 @@ def write_single(w, cfg):
         before_v = before
         indexer = s.imol
     want_v = spec.write(before_v, key, list(value) if _seqlike(value) else value, view={'mol': 'mol', 'mass': 'wt'}[view])
-    indexer[key] = value
+    if not accepted(w, lambda: indexer.__setitem__(key, value)): return
     after = dense_rows(s)[0][1]
     touched = set(spec.positions(key))
     for k in range(spec.n):
@@ -923,7 +945,7 @@ def write_multi(w, cfg):
         written = spec.written(ck, plain)
         if p is ...: written = [written] * len(phases)
         touched = set(spec.positions(ck))
-    s.imol[key] = value
+    if not accepted(w, lambda: s.imol.__setitem__(key, value)): return
     after = dense_rows(s)
     for r, ph in enumerate(phases):
         for k in range(spec.n):
@@ -983,6 +1005,35 @@ def redefine_group(w, cfg):
     spec.define('G1', new)
     check_items(w, spec, s, items, multi, 'after re-defining a group: read[{}] = positional read')
     ensure_coherent(w, spec, s, 'after re-defining a group')
+    # a name that did not exist when it was first looked up (the lookup was refused) is then given to a chemical / a group
+    k = spec.n - 1
+    la, lg = 'LateAlias', 'LateGroup'
+    if multi:
+        p0 = phases[0]
+        probes = [MKey('late alias', la, None, la), MKey('late tuple', (spec.IDs[0], la), None, (spec.IDs[0], la)),
+                  MKey('late group', lg, None, lg), MKey('(phase, late alias)', (p0, la), p0, la),
+                  MKey('(..., late group)', (..., [lg, la]), ..., [lg, la])]
+    else:
+        probes = [('late alias', la), ('late tuple', (spec.IDs[0], la)), ('late group', lg), ('late list', [lg, la])]
+    not_refused = []
+    for it in probes:
+        key = it.key if multi else it[1]
+        try:
+            s.imol[key]
+            not_refused.append(repr(key))
+        except UndefinedChemicalAlias:
+            pass
+    w.ensure('a key with an unknown name is refused (UndefinedChemicalAlias)', not not_refused, accepted=not_refused)
+    ensure_coherent(w, spec, s, 'after refused lookups')
+    cs.set_alias(spec.IDs[k], la)
+    spec.pos[la] = k
+    spec.names[k]['alias'].append(la)
+    late = {'IDs': [spec.IDs[0]], 'comp': None, 'wt': False}
+    cs.define_group(lg, late['IDs'], late['comp'], wt=False)
+    spec.define(lg, late)
+    check_items(w, spec, s, probes, multi, 'after naming: read[{}] = positional read although the same lookup was refused before')
+    check_items(w, spec, s, items, multi, 'after naming: every other key form = positional read', per_label=False)
+    ensure_coherent(w, spec, s, 'after naming')
     d = dense_rows(s)[0][1]
     w.canary('canary: group read returns one member only', same(w, s.imol[('l', 'G1') if multi else 'G1'], d[0] + 1))
 
@@ -1044,6 +1095,8 @@ def split_indexer(w, cfg):
         for lab, key in chem_keys(spec):
             try:
                 conds.append(same(w, sp[key], split_read(spec, dense(), key)))
+            except ENGINE_EXC:
+                raise
             except Exception as e:
                 conds.append(False); probs.append(f'{key!r}: {type(e).__name__}: {e}')
         w.ensure(clause, w.And(*conds), exceptions=probs[:3])
@@ -1054,6 +1107,8 @@ def split_indexer(w, cfg):
         for key in synth_chem_keys(spec, N):
             try:
                 conds.append(same(w, sp[key], split_read(spec, dense(), key)))
+            except ENGINE_EXC:
+                raise
             except Exception as e:
                 conds.append(False)
         w.ensure(f'history: each of the {N} distinct lookups = positional read (no exception)', w.And(*conds))
@@ -1083,7 +1138,7 @@ def split_indexer(w, cfg):
             for m, x in enumerate(key):
                 v = plain[m] if _seqlike(plain) else plain
                 for i in (spec.groups[x] if x in spec.groups else [spec.pos[x]]): want[i] = v
-    sp[key] = value
+    if not accepted(w, lambda: sp.__setitem__(key, value)): return
     after = dense()
     touched = set(spec.positions(key))
     for k in range(n):
